@@ -15,7 +15,7 @@ pub fn def() -> PropDef {
         strum_features: &["derive"],
         profiles: &["dev"],
         rule: "programs: N=1..Nmax variants x every subset of disabled positions x <=k deviations (repr type, per-variant explicit \
-               discriminant: gap literal, `1 + 2`, a const, negative, descending, type MIN/MAX; variant kind), kept when rustc's \
+               discriminant: gap literal, `1 + 2`, `1 << 2`, `6 | 1`, a const, negative, descending, type MIN/MAX; variant kind), kept when rustc's \
                discriminant rule yields unique in-range values. inputs: EVERY value of the repr type for 8/16-bit reprs, otherwise \
                0, +-1, MIN, MAX, every declared discriminant +-1 and 2^k+-1 for all k. oracle: from_repr(d) == the enabled variant \
                whose reference discriminant is d; the reference discriminants are cross-checked against `v as R` / the tag of a \
@@ -46,8 +46,19 @@ pub fn repr_range(r: &str) -> (i128, i128) {
 /// value of a discriminant expression of the palette
 pub fn disc_value(text: &str) -> Option<i128> {
     let t = text.trim();
-    if let Some((a, b)) = t.split_once(" + ") {
-        return Some(disc_value(a)? + disc_value(b)?);
+    // binary expressions of the palette: `a OP b` (operands are atoms)
+    for (op, f) in [
+        (" << ", (|a: i128, b: i128| a << b) as fn(i128, i128) -> i128),
+        (" >> ", |a, b| a >> b),
+        (" | ", |a, b| a | b),
+        (" & ", |a, b| a & b),
+        (" ^ ", |a, b| a ^ b),
+        (" + ", |a, b| a + b),
+        (" * ", |a, b| a * b),
+    ] {
+        if let Some((a, b)) = t.split_once(op) {
+            return Some(f(disc_value(a)?, disc_value(b)?));
+        }
     }
     if let Some(rest) = t.strip_prefix("KM") {
         return rest.parse::<i128>().ok().map(|v| -v);
@@ -125,7 +136,7 @@ fn consts_used(spec: &EnumSpec) -> Vec<String> {
 
 pub fn programs(tier: Tier) -> ProgramSet {
     let (nmax, k, reprs, full): (usize, usize, Vec<&str>, bool) = match tier {
-        Tier::Quick => (3, 2, vec!["u8", "i8", "i16", "u64"], false),
+        Tier::Quick => (3, 2, REPRS.to_vec(), false),
         Tier::Thorough => (4, 2, REPRS.to_vec(), true),
     };
     let mut out = Vec::new();
@@ -156,9 +167,9 @@ pub fn programs(tier: Tier) -> ProgramSet {
                     format!("{}", 40 - 7 * i),      // descending when used on several variants
                 ];
                 if full {
-                    choices.extend(["127".to_string(), "-128".into(), "255".into(), "32767".into(), "-32768".into(), "65535".into(), "KM5".into(), "K10 + 1".into()]);
+                    choices.extend(["127".to_string(), "-128".into(), "255".into(), "32767".into(), "-32768".into(), "65535".into(), "KM5".into(), "K10 + 1".into(), "1 << 2".into(), "6 | 1".into(), "12 & 10".into(), "2 * 3".into(), "5 ^ 1".into()]);
                 } else {
-                    choices.extend(["-128".to_string(), "254".into()]);
+                    choices.extend(["-128".to_string(), "254".into(), "1 << 2".into()]);
                 }
                 for c in choices {
                     let c2 = c.clone();
